@@ -281,10 +281,9 @@ func runC01(w *W) {
 	if w.Thorough() {
 		plans = []plan{
 			{n3, c01Topologies3(), 2, 2, nil},
-			{n3, c01Topologies3(), 3, 1, nil},
+			{n3, c01Topologies3(), 3, 0, nil},
 			{n4, c01Topologies4(), 1, 2, nil},
 			{n4, c01Topologies4(), 2, 1, r4},
-			{n4, c01Topologies4(), 3, 0, r4},
 		}
 	} else {
 		plans = []plan{
@@ -425,7 +424,7 @@ func init() {
 		Level:     "model_checking",
 		Technique: "stateless deviation-bounded DFS with state-hash pruning over message-delivery schedules of real Netceptor nodes in a synctest bubble (virtual time, harness-owned links); Floyd–Warshall oracle on ground truth",
 		Rule: "scenario = initial weighted topology (all 3-node graphs x cost variants incl. a per-node cost override; seven 4-node graphs) x every sequence of <=k events from {down, up, silent, stop, restart}; six event sequences on a triangle that has run 25 route-update periods before the first event (long-lived nodes with high sequence numbers); " +
-			"per scenario every delivery schedule with <=d deviations from the canonical one (choice points: which link/batch member to deliver, hold a link, early timer tick, next event before the flood settled). " +
+			"(k, d) per tier: quick N=3 {k=1,d=2; k=2,d=1}, N=4 {k=1,d=1; k=2,d=0 on a restricted event menu}; thorough N=3 {k=2,d=2; k=3,d=0}, N=4 {k=1,d=2; k=2,d=1 restricted} (about 100 minutes on 16 cores; scenarios whose exploration is cut off at 40000 executions or 10 minutes are counted in counters.capped_scenarios); per scenario every delivery schedule with <=d deviations from the canonical one (choice points: which link/batch member to deliver, hold a link, early timer tick, next event before the flood settled). " +
 			"A case is one scenario; non-trivial = it had at least one choice point. evaluations counts scenarios; counters.executions counts complete executions of the real code.",
 		Assumptions: []string{
 			"macro-step atomicity: inside one delivery the Go scheduler orders goroutines; the explorer owns the order of deliveries, timer ticks and events",
